@@ -409,3 +409,108 @@ class PropertyGroupMembersSet(Contract):
 
 
 CONTRACTS = [ConcatNameSet, PropertyGroupMembersSet, ConcatParentSet, FileNameSet, ClearArrays, PropertyGroupInitStub, CreatePropertyGroupMembers, DrillholeClip, ComponentsReadOnly]
+
+
+class GroupCopyStub(Contract):
+    """summary of Group.copy for Concatenator.copy: the group itself (no children) is created under the
+    target and handed back."""
+    target = "geoh5py/groups/base.py::Group.copy"
+    symbolic = False
+    props = ()
+    made = {}
+
+    def apply(self, I, args, kwargs):
+        I.event("group-copied", copy_children=kwargs.get("copy_children"), omit=kwargs.get("omit_list"))
+        return self.made["new"]
+
+
+class ConcatenatorCopy(Contract):
+    """Concatenator.copy (repaired by 880bfb6): the stored records are taken over as they are -- identifiers
+    included -- only into *another* workspace in which none of the recorded identifiers is in use; when one
+    is in use there (a second copy), or inside the same workspace, every child is copied on its own under a
+    fresh identifier.  Either way the copy's records are its own objects, never the source's."""
+    target = "geoh5py/shared/concatenation/concatenator.py::Concatenator.copy"
+    props = ("C06", "C12", "C04")
+    lenient = True
+    uses = (GroupCopyStub,)
+
+    def cases(self):
+        return ["other-workspace-identifiers-free", "other-workspace-a-hole-identifier-in-use", "other-workspace-a-log-identifier-in-use", "same-workspace"]
+
+    def setup(self, ctx):
+        import uuid
+
+        from geoh5py.groups import DrillholeGroup
+
+        hole_id, log_id = uuid.UUID(int=31), uuid.UUID(int=32)
+        src_ws, dst_ws = Opaque("source-workspace"), Opaque("target-workspace")
+        src_ws.distinct = dst_ws.distinct = True
+        taken = {"other-workspace-a-hole-identifier-in-use": hole_id, "other-workspace-a-log-identifier-in-use": log_id}.get(ctx.case)
+        holder = Opaque("holder")
+        ctx.path.assume(holder.truth_var())
+        ctx.path.assume(z3.Not(holder.none_var()))
+        fe = Opaque("find_entity")
+
+        def find(I, a, kw):
+            I.event("asked-whether-in-use", uid=a[0])
+            return holder if a[0] == taken else None
+
+        fe.maybe_method = find
+        dst_ws.attrs["find_entity"] = fe
+        fc = Opaque("fetch_children")
+        fc.maybe_method = lambda I, a, kw: I.event("holes-rebuilt-from-the-records", parent=a[0])
+        dst_ws.attrs["fetch_children"] = fc
+        from geoh5py.workspace import Workspace
+
+        with Workspace() as scratch:  # the concatenating group class is generated at run time
+            real_cls = type(DrillholeGroup.create(scratch))
+        me = Opaque("self", cls=real_cls)
+        new = Opaque("new-group", cls=real_cls)
+        me.distinct = new.distinct = True
+        me.attrs["workspace"] = src_ws
+        new.attrs["workspace"] = src_ws if ctx.case == "same-workspace" else dst_ws
+        if ctx.case == "same-workspace":
+            src_ws.attrs["find_entity"] = fe
+            src_ws.attrs["fetch_children"] = fc
+        records = PDict({"Attributes": PList([PDict({"ID": "{" + str(hole_id) + "}", "Name": "hole"}), PDict({"ID": "{" + str(log_id) + "}", "Name": "log"})])})
+        ids = PList(["{" + str(hole_id) + "}"])
+        me.attrs["concatenated_attributes"] = records
+        me.attrs["concatenated_object_ids"] = ids
+        me.attrs["index"] = PDict({})
+        hole = Opaque("hole")
+        copies = []
+
+        def copy_child(I, a, kw):
+            copies.append(dict(kw))
+            I.event("child-copied", parent=kw.get("parent"), omit=kw.get("omit_list"))
+            return Opaque("hole-copy")
+
+        hc = Opaque("hole.copy")
+        hc.maybe_method = copy_child
+        hole.attrs["copy"] = hc
+        me.attrs["children"] = PList([hole])
+        GroupCopyStub.made["new"] = new
+        ctx.env.update(me=me, new=new, records=records, ids=ids, copies=copies, dst=dst_ws)
+        return [me], {"parent": dst_ws if ctx.case != "same-workspace" else src_ws}
+
+    def post(self, ctx, result):
+        e = ctx.env
+        new = e["new"]
+        ev = [k for k, p in ctx.path.events]
+        ctx.oblige("the-new-group-is-returned", result is new)
+        took = new.attrs.get("concatenated_attributes", new.attrs.get("_concatenated_attributes"))
+        took_ids = new.attrs.get("concatenated_object_ids", new.attrs.get("_concatenated_object_ids"))
+        ctx.oblige("the-copy-never-holds-the-sources-own-records", took is not e["records"] and took_ids is not e["ids"], kind="frame")
+        if ctx.case == "other-workspace-identifiers-free":
+            ctx.oblige("free-identifiers-are-kept-the-records-are-taken-over", took is not None and "holes-rebuilt-from-the-records" in ev and not [c for c in e["copies"] if c.get("omit_list")],
+                       note=f"records taken over: {took is not None}; events {ev}; child copies {e['copies']}")
+        else:
+            fresh = [c for c in e["copies"] if c.get("parent") is new and "_uid" in (getattr(c.get("omit_list"), "items", None) or c.get("omit_list") or [])]
+            ctx.oblige("identifiers-in-use-are-not-taken-over-every-child-is-copied-under-a-fresh-one", took is None and "holes-rebuilt-from-the-records" not in ev and len(fresh) == 1,
+                       note=f"records taken over: {took is not None}; children copied on their own: {len(fresh)}")
+
+    def post_raises(self, ctx, sig):
+        ctx.oblige("copying-a-drillhole-group-does-not-raise", False, kind="post-exc", note=f"{sig.exc_class.__name__} at {sig.origin}")
+
+
+CONTRACTS = CONTRACTS + [GroupCopyStub, ConcatenatorCopy]
